@@ -88,6 +88,10 @@ type ReplayFile struct {
 	MessageDigest string   `json:"message_digest"`
 	Trace         []string `json:"trace"`
 	TreeRev       string   `json:"tree_rev"`
+	// Crash: the run does not end in an oracle failure but takes the whole process down (a panic in a
+	// goroutine that real code started itself cannot be recovered by the run wrapper). The tape of such
+	// a run cannot be recorded; it is regenerated from (seed, run) and replayed in a child process.
+	Crash bool `json:"crash,omitempty"`
 }
 
 func digest(s string) string { h := sha256.Sum256([]byte(s)); return hex.EncodeToString(h[:8]) }
@@ -126,6 +130,9 @@ func runWorker(t *testing.T, w World) {
 			break
 		}
 		ix := start + uint64(i)
+		if cur := os.Getenv("VERIF_W_CUR"); cur != "" {
+			os.WriteFile(cur, []byte(strconv.FormatUint(ix, 10)), 0o644) // crash attribution: which run was in flight
+		}
 		r := RunOne(t, w, prop, tier, NewGenTape(seed, ix), ix)
 		if r.Trouble != "" {
 			rep.Trouble = fmt.Sprintf("run %d: %s", ix, r.Trouble)
@@ -193,6 +200,76 @@ func runWorker(t *testing.T, w World) {
 		rep.FPs = append(rep.FPs, strconv.FormatUint(fp, 16))
 	}
 	sort.Strings(rep.FPs)
+}
+
+// ---- crashes of a worker process -------------------------------------------
+
+// classifyCrash reads the Go runtime's crash output of a worker: was it a panic, and is the first
+// frame of the panicking goroutine that is neither runtime nor library code gossamer's?
+func classifyCrash(out string) (inGossamer bool, site, msg string) {
+	i := strings.LastIndex(out, "\npanic: ")
+	if i < 0 {
+		if strings.HasPrefix(out, "panic: ") {
+			i = 0
+		} else {
+			return false, "", ""
+		}
+	}
+	rest := out[i:]
+	lines := strings.Split(strings.TrimPrefix(rest, "\n"), "\n")
+	msg = strings.TrimPrefix(lines[0], "panic: ")
+	if len(msg) > 300 {
+		msg = msg[:300]
+	}
+	// the first goroutine printed after the panic line is the panicking one
+	j := 0
+	for j < len(lines) && !strings.HasPrefix(lines[j], "goroutine ") {
+		j++
+	}
+	var frames []string
+	for j++; j < len(lines) && lines[j] != ""; j++ {
+		frames = append(frames, lines[j])
+	}
+	inG, site := classifyPanic("panic(...)\n\t/runtime/panic.go\n" + strings.Join(frames, "\n"))
+	return inG, site, msg
+}
+
+// locateCrash re-executes a chunk in a child that records which run is in flight and returns the run
+// whose execution crashes at the same site.
+func locateCrash(st, cnt int, site string) (int, bool) {
+	dir, err := os.MkdirTemp("", "verif-crash-")
+	if err != nil {
+		return 0, false
+	}
+	defer os.RemoveAll(dir)
+	cur := filepath.Join(dir, "cur")
+	cmd := exec.Command(os.Args[0], "-test.run", "^TestVerif$", "-test.timeout", "0")
+	cmd.Env = append(os.Environ(), "VERIF_MODE=worker", "VERIF_W_START="+strconv.Itoa(st), "VERIF_W_COUNT="+strconv.Itoa(cnt),
+		"VERIF_W_DEADLINE="+strconv.FormatInt(time.Now().Add(10*time.Minute).Unix(), 10), "VERIF_W_OUT="+filepath.Join(dir, "out.json"),
+		"VERIF_W_SAMPLES=0", "VERIF_W_CUR="+cur, "GOMAXPROCS=2")
+	var buf strings.Builder
+	cmd.Stdout, cmd.Stderr = &buf, &buf
+	done := make(chan error, 1)
+	if err := cmd.Start(); err != nil {
+		return 0, false
+	}
+	go func() { done <- cmd.Wait() }()
+	select {
+	case <-done:
+	case <-time.After(12 * time.Minute):
+		cmd.Process.Kill()
+		<-done
+		return 0, false
+	}
+	if inG, s2, _ := classifyCrash(buf.String()); !inG || s2 != site {
+		return 0, false
+	}
+	b, err := os.ReadFile(cur)
+	if err != nil {
+		return 0, false
+	}
+	ix, err := strconv.Atoi(strings.TrimSpace(string(b)))
+	return ix, err == nil
 }
 
 // ---- known findings -------------------------------------------------------
@@ -345,6 +422,24 @@ func runOrchestrator(t *testing.T, w World) int {
 				b, rerr := os.ReadFile(out)
 				var rep WorkerReport
 				if rerr != nil || json.Unmarshal(b, &rep) != nil {
+					// the worker died. If gossamer code panicked in a goroutine of its own, that is a finding of
+					// the run that was in flight: find the run (the chunk is re-executed with a progress marker)
+					// and report it; anything else is trouble.
+					if inG, site, msg := classifyCrash(buf.String()); inG {
+						if ix, ok := locateCrash(st, cnt, site); ok {
+							mu.Lock()
+							total.Runs += ix - st + 1 // the runs of the chunk up to and including the crashing one were executed (twice)
+							total.Violations = append(total.Violations, ReplayFile{Property: prop, World: w.Name(), Oracle: "panic", Class: "panic@" + site + ":unrecovered",
+								Seed: seed, Run: uint64(ix), Tier: tier, Crash: true, Message: "panic in a goroutine started by gossamer code took the process down: " + msg,
+								MessageDigest: digest("panic|panic@" + site + ":unrecovered")})
+							if len(total.Violations) >= 6 {
+								stopAll = true
+							}
+							// the runs of the chunk after the crashing one are not executed again
+							mu.Unlock()
+							continue
+						}
+					}
 					tail := buf.String()
 					if len(tail) > 3000 {
 						tail = tail[len(tail)-3000:]
@@ -526,6 +621,19 @@ func runReplay(t *testing.T, w World) int {
 	if err := json.Unmarshal(b, &rf); err != nil {
 		fmt.Println("TROUBLE bad replay file:", err)
 		return 2
+	}
+	if rf.Crash {
+		// the run takes the process down: replay it in a child, from (seed, run)
+		os.Setenv("VERIF_PROP", rf.Property)
+		os.Setenv("VERIF_TIER", rf.Tier)
+		os.Setenv("VERIF_SEED", strconv.FormatUint(rf.Seed, 10))
+		ix, ok := locateCrash(int(rf.Run), 1, strings.TrimSuffix(strings.TrimPrefix(rf.Class, "panic@"), ":unrecovered"))
+		if !ok || uint64(ix) != rf.Run {
+			fmt.Printf("REPLAY-DIVERGED property=%s: run %d of seed %d no longer crashes at %s (the tree may have changed: recorded rev %s, now %s)\n", rf.Property, rf.Run, rf.Seed, rf.Class, rf.TreeRev, treeRev())
+			return 2
+		}
+		fmt.Printf("VIOLATION property=%s replay=%s\n  oracle=%s class=%s\n  %s\n", rf.Property, path, rf.Oracle, rf.Class, rf.Message)
+		return 1
 	}
 	r := RunOne(t, w, rf.Property, rf.Tier, NewReplayTape(rf.Tape), rf.Run)
 	for _, l := range r.Log {
